@@ -226,7 +226,26 @@ func (c *Ctx) classifyMapRange(s *mapRangeSite) (string, token.Pos) {
 						}
 					}
 					// m2[k] = v : map insert is commutative when keys are the iteration keys;
-					// slice[idx] = v is a keyed store as well
+					// slice[idx] = v is a keyed store as well. When the index is computed from the
+					// iteration VALUE only, two entries of the iterated map can carry the same
+					// value: they write the same slot and the last one wins - unless what is
+					// stored does not depend on the entry (set[v] = true).
+					if keyObj != nil && valObj != nil && len(x.Rhs) == len(x.Lhs) {
+						mentions := func(e ast.Expr, o types.Object) bool {
+							hit := false
+							ast.Inspect(e, func(k ast.Node) bool {
+								if id, ok := k.(*ast.Ident); ok && info.Uses[id] == o {
+									hit = true
+								}
+								return !hit
+							})
+							return hit
+						}
+						if mentions(lx.Index, valObj) && !mentions(lx.Index, keyObj) && (mentions(x.Rhs[i], keyObj) || mentions(x.Rhs[i], valObj)) && !isConstExpr(x.Rhs[i]) {
+							fail(l.Pos(), "stores into %s, a slot chosen by the iteration value alone: entries with equal values write the same slot and the last one visited wins", types.ExprString(l))
+							return
+						}
+					}
 					continue
 				case *ast.Ident, *ast.SelectorExpr, *ast.StarExpr:
 					_ = lx
